@@ -626,6 +626,15 @@ impl InnerLocustDB {
                     cols.into_values().next().unwrap()
                 };
 
+                #[cfg(feature = "verif")]
+                crate::verif::sync_point(&format!(
+                    "compact:input:{}:{}:{}:{:?}:{}",
+                    table.name(),
+                    column,
+                    part.id,
+                    col.encoding_type(),
+                    col.codec().signature(false)
+                ));
                 let span_decode = tracer.start_span("decode");
                 let decoded = col.decode();
                 tracer.end_span(span_decode);
